@@ -11,7 +11,7 @@ import z3
 
 from . import seqops
 from .core import PyRaise
-from .values import (BoundMethod, Closure, DictCell, EnumerateV, ExcV, MapCell, ObjCell, OldView, Opaque, RangeV,
+from .values import (BoundMethod, Closure, DictCell, EnumerateV, ExcV, MapCell, MapElem, ObjCell, OldView, Opaque, RangeV,
                      Ref, SeqCell, SeqV, SuperV, Sym, Unsupported, fpval, is_scalar, kind_of, mk, to_term)
 
 _CMP = {ast.Eq: "==", ast.NotEq: "!=", ast.Lt: "<", ast.LtE: "<=", ast.Gt: ">", ast.GtE: ">="}
@@ -430,6 +430,9 @@ class ExprMixin:
 
     def contains(self, container, item):
         """`item in container`: Python bool or Sym bool."""
+        if isinstance(container, OldView) and isinstance(self.old_heap.get(container.ref.addr), MapCell):
+            cell = self.old_heap[container.ref.addr]
+            return mk("bool", z3.Select(cell.dom, self.map_key(cell, item)))
         if isinstance(container, Ref):
             cell = self.path.cell(container)
             if isinstance(cell, DictCell):
@@ -636,6 +639,9 @@ class ExprMixin:
         return self.box_seq(seqops.slice_(seq, lo, hi))
 
     def get_item(self, base, idx):
+        if isinstance(base, OldView) and isinstance(self.old_heap.get(base.ref.addr), MapCell):
+            cell = self.old_heap[base.ref.addr]
+            return MapElem(base.ref, z3.simplify(self.map_key(cell, idx)), old=True)
         if isinstance(base, Ref):
             cell = self.path.cell(base)
             if isinstance(cell, DictCell):
@@ -645,6 +651,12 @@ class ExprMixin:
                 return cell.d[key]
             if isinstance(cell, MapCell):
                 k = self.map_key(cell, idx)
+                if cell.vkind == "ref":
+                    if getattr(self, "spec_depth", 0) > 0 or getattr(self, "pure_depth", 0) > 0:
+                        return MapElem(base, z3.simplify(k))     # specification context: unchecked, as for sequences
+                    if not self.path.decide(z3.Select(cell.dom, k)):
+                        raise PyRaise(ExcV(KeyError, (idx,)))
+                    return MapElem(base, z3.simplify(k))
                 if not self.path.decide(z3.Select(cell.dom, k)):
                     raise PyRaise(ExcV(KeyError, (idx,)))
                 return self.map_value(cell, z3.Select(cell.val, k))
